@@ -14,7 +14,8 @@ Two families of types:
 otlpmetric*/internal/transform, otlplog*/internal/transform), including the quirks:
 grouping by resource *attribute set* (schema URL and nil-ness of the first-seen resource win), nil scope only in
 the trace/log copies, `"INVALID"` default, clamp/max-0, the enum tables, dropped metrics on unknown temporality,
-and only the fields the code sets (F16: link trace state; F17: ZeroThreshold).
+and only the fields the code sets (F17: ZeroThreshold). Models the tree after the F16 repair (fe0bf20: link trace
+state set) and the F32 repair (089ce94: resources keyed by attributes AND schema URL).
 -/
 import Otel.Base.Wire
 namespace Otel.C13
@@ -334,9 +335,9 @@ def spanFlags (sc : SpanCtx) : Nat := if sc.remote then 768 else 256
 def encodeEvent (e : Event) : PEvent :=
   { time := timeNano e.time, name := e.name, attrs := encodeKVs e.attrs, dropped := clampUint32 e.dropped }
 
-/-- `links`: `TraceState` is not set (F16) -/
+/-- `links` (`TraceState` set since fe0bf20) -/
 def encodeLink (l : Link) : PLink :=
-  { traceId := l.sc.traceId, spanId := l.sc.spanId, traceState := [], attrs := encodeKVs l.attrs,
+  { traceId := l.sc.traceId, spanId := l.sc.spanId, traceState := l.sc.traceState, attrs := encodeKVs l.attrs,
     dropped := clampUint32 l.dropped, flags := spanFlags l.sc }
 
 /-- `span` (span.go:89-122) -/
@@ -362,14 +363,17 @@ def encodeTraceScope (s : Scope) : Option PScope :=
 def encodeScopeSpans (g : Scope × Unit × List Span) : PScopeSpans :=
   { scope := encodeTraceScope g.1, spans := g.2.2.map encodeSpan, schemaUrl := g.1.schemaUrl }
 
-def encodeResourceSpans (g : List KV × Option Resource × List Span) : PResourceSpans :=
+/-- grouping key of a resource since 089ce94: `resKey{r: Resource.Equivalent(), url: Resource.SchemaURL()}` -/
+def resGroupKey (o : Option Resource) : List KV × Bytes := (resKey o, resSchema o)
+
+def encodeResourceSpans (g : (List KV × Bytes) × Option Resource × List Span) : PResourceSpans :=
   { resource := encodeTraceResource g.2.1,
     scopeSpans := (groupBy (·.scope) (fun _ => ()) g.2.2).map encodeScopeSpans,
     schemaUrl := resSchema g.2.1 }
 
 /-- `Spans` (span.go:19-86): nil spans skipped; ResourceSpans in first-seen order here (Go: map order) -/
 def encodeSpans (sdl : List (Option Span)) : List PResourceSpans :=
-  (groupBy (fun s => resKey s.resource) (·.resource) (sdl.filterMap id)).map encodeResourceSpans
+  (groupBy (fun s => resGroupKey s.resource) (·.resource) (sdl.filterMap id)).map encodeResourceSpans
 
 /-! ### logs (otlplog*/internal/transform/log.go:25-118) -/
 structure LogRecord where
@@ -440,14 +444,14 @@ def encodeScopeLogs (g : Scope × Unit × List LogRecord) : PScopeLogs :=
   else { scope := some { name := g.1.name, version := g.1.version, attrs := encodeKVs g.1.attrs, dropped := 0 },
          records := g.2.2.map encodeLogRecord, schemaUrl := g.1.schemaUrl }
 
-def encodeResourceLogs (g : List KV × Resource × List LogRecord) : PResourceLogs :=
+def encodeResourceLogs (g : Resource × Resource × List LogRecord) : PResourceLogs :=
   { resource := encodeLogResource g.2.1,
     scopeLogs := (groupBy (·.scope) (fun _ => ()) g.2.2).map encodeScopeLogs,
     schemaUrl := g.2.1.schemaUrl }
 
 /-- `ResourceLogs` (log.go:25-86) -/
 def encodeLogs (rs : List LogRecord) : List PResourceLogs :=
-  (groupBy (·.resource.attrs) (·.resource) rs).map encodeResourceLogs
+  (groupBy (·.resource) (·.resource) rs).map encodeResourceLogs
 
 /-! ### metrics (otlpmetric*/internal/transform/metricdata.go) -/
 
